@@ -111,7 +111,10 @@ pub const MAX_FAN: usize = 8;
 pub const ZST_CAP: usize = 4_000;
 const TYPE_NAME: &str = "T";
 const VARIANT_NAME: &str = "V";
-const VARIANT_NAMES: [&str; 1] = ["V"];
+/// `variants` as serde-derive passes it: one name per variant index 0..=max (indices are dense in
+/// derived code; a deserializer may legitimately bound-check the discriminant against this list)
+pub const MAX_VARIANT_INDEX: u32 = 16_399;
+static VARIANT_NAMES: [&str; MAX_VARIANT_INDEX as usize + 1] = ["V"; MAX_VARIANT_INDEX as usize + 1];
 
 // ---------------------------------------------------------------------------------------------
 // kinds (for signatures and swarm masks)
@@ -318,11 +321,14 @@ pub fn gen_shape(rng: &mut Rng, cfg: &GenCfg, depth: u32) -> Shape {
                     idx = match rng.below(8) {
                         0 => idx.max(126) + rng.range(0, 3) as u32,
                         1 => idx.max(16382) + rng.range(0, 3) as u32,
-                        2 => idx.saturating_add(1 << rng.range(1, 31)).min(u32::MAX - 8),
+                        2 => idx.saturating_add(1 << rng.range(1, 13)),
                         _ => idx + 1,
                     };
                     if vs.iter().any(|(i, _)| *i == idx) {
                         idx += 1;
+                    }
+                    if idx > MAX_VARIANT_INDEX {
+                        break; // one-, two- and three-byte discriminants are all reachable below this
                     }
                 }
                 Shape::Enum(vs)
@@ -943,6 +949,37 @@ enum What<'s> {
 }
 struct V<'s>(What<'s>);
 
+impl V<'_> {
+    /// serde's char visitor takes a string of exactly one character
+    fn char_from_str<E: de::Error>(&self, v: &str) -> Option<Result<Val, E>> {
+        if !matches!(self.0, What::One(Shape::Char)) {
+            return None;
+        }
+        let mut it = v.chars();
+        Some(match (it.next(), it.next()) {
+            (Some(c), None) => Ok(Val::Char(c)),
+            _ => Err(E::invalid_value(de::Unexpected::Str(v), &"a single character")),
+        })
+    }
+}
+
+/// serde's primitive visitors convert between number types where the value fits; bring what was
+/// visited into the representation of the shape that was asked for
+fn normalize(shape: &Shape, v: Val) -> Val {
+    use Shape::*;
+    match (shape, v) {
+        (I8 | I16 | I32 | I64 | I128, Val::Uint(u)) if u <= i128::MAX as u128 => Val::Int(u as i128),
+        (U8 | U16 | U32 | U64 | U128, Val::Int(i)) if i >= 0 => Val::Uint(i as u128),
+        (F32, Val::F64(b)) => Val::F32((f64::from_bits(b) as f32).to_bits()),
+        (F64, Val::F32(b)) => Val::F64((f32::from_bits(b) as f64).to_bits()),
+        (Str | DisplayStr, Val::Bytes(b)) => match String::from_utf8(b) {
+            Ok(s) => Val::Str(s),
+            Err(e) => Val::Bytes(e.into_bytes()),
+        },
+        (_, v) => v,
+    }
+}
+
 fn record(bytes: &[u8]) {
     if RECORD.with(|r| r.get()) {
         BORROWS.with(|b| {
@@ -960,7 +997,8 @@ impl<'de> DeserializeSeed<'de> for Seed<'_> {
     fn deserialize<D: Deserializer<'de>>(self, d: D) -> Result<Val, D::Error> {
         use Shape::*;
         let v = V(What::One(self.0));
-        match self.0 {
+        let shape = self.0;
+        (match self.0 {
             Bool => d.deserialize_bool(v),
             I8 => d.deserialize_i8(v),
             I16 => d.deserialize_i16(v),
@@ -990,8 +1028,12 @@ impl<'de> DeserializeSeed<'de> for Seed<'_> {
             TupleStruct(fs) => d.deserialize_tuple_struct(TYPE_NAME, fs.len(), v),
             Map(_, _) => d.deserialize_map(v),
             Struct(fs) => d.deserialize_struct(TYPE_NAME, &FIELD_NAMES[..fs.len()], v),
-            Enum(_) => d.deserialize_enum(TYPE_NAME, &VARIANT_NAMES, v),
-        }
+            Enum(vars) => {
+                let max = vars.iter().map(|(i, _)| *i).max().unwrap_or(0).min(MAX_VARIANT_INDEX) as usize;
+                d.deserialize_enum(TYPE_NAME, &VARIANT_NAMES[..=max], v)
+            }
+        })
+        .map(|v| normalize(shape, v))
     }
 }
 
@@ -1075,11 +1117,21 @@ impl<'de> Visitor<'de> for V<'_> {
     fn visit_char<E>(self, v: char) -> Result<Val, E> {
         Ok(Val::Char(v))
     }
-    fn visit_borrowed_str<E>(self, v: &'de str) -> Result<Val, E> {
+    fn visit_borrowed_str<E: de::Error>(self, v: &'de str) -> Result<Val, E> {
+        if let Some(r) = self.char_from_str(v) {
+            return r;
+        }
+        if matches!(self.0, What::One(Shape::Bytes)) {
+            record(v.as_bytes());
+            return Ok(Val::Bytes(v.as_bytes().to_vec()));
+        }
         record(v.as_bytes());
         Ok(Val::Str(v.to_owned()))
     }
     fn visit_str<E: de::Error>(self, v: &str) -> Result<Val, E> {
+        if let Some(r) = self.char_from_str(v) {
+            return r;
+        }
         TRANSIENT.with(|t| t.set(t.get() + 1));
         if RECORD.with(|r| r.get()) {
             // a zero-copy target (`&'de str`) cannot take a transient string: same error as serde's
@@ -1087,7 +1139,13 @@ impl<'de> Visitor<'de> for V<'_> {
         }
         Ok(Val::Str(v.to_owned()))
     }
-    fn visit_string<E>(self, v: String) -> Result<Val, E> {
+    fn visit_string<E: de::Error>(self, v: String) -> Result<Val, E> {
+        if let Some(r) = self.char_from_str(&v) {
+            return r;
+        }
+        if matches!(self.0, What::One(Shape::Bytes)) {
+            return Ok(Val::Bytes(v.into_bytes()));
+        }
         Ok(Val::Str(v))
     }
     fn visit_byte_buf<E>(self, v: Vec<u8>) -> Result<Val, E> {
@@ -1114,6 +1172,10 @@ impl<'de> Visitor<'de> for V<'_> {
         }
     }
     fn visit_unit<E>(self) -> Result<Val, E> {
+        // std's Option visitor takes a unit as None
+        if matches!(self.0, What::One(Shape::Option(_))) {
+            return Ok(Val::Opt(None));
+        }
         Ok(Val::Unit)
     }
     fn visit_newtype_struct<D: Deserializer<'de>>(self, d: D) -> Result<Val, D::Error> {
@@ -1147,6 +1209,11 @@ impl<'de> Visitor<'de> for V<'_> {
             What::One(Shape::Tuple(fs) | Shape::TupleStruct(fs) | Shape::Struct(fs)) => {
                 Ok(Val::Seq(fields_from_seq(fs, seq)?))
             }
+            // a derived newtype struct also accepts a one-element sequence
+            What::One(Shape::Newtype(s)) => match seq.next_element_seed(Seed(s))? {
+                Some(v) => Ok(v),
+                None => Err(de::Error::invalid_length(0, &"one element")),
+            },
             What::Fields(fs) => Ok(Val::Seq(fields_from_seq(fs, seq)?)),
             _ => Err(de::Error::custom("harness: visit_seq on non-sequence shape")),
         }
